@@ -224,7 +224,7 @@ func vecGroups() []group {
 				return []alt{mk(0, n), mk(n+1, 1)}
 			}
 		}})
-	gs = append(gs, group{Kind: "Vector", Name: "Set", Methods: []string{"Set", "SET"}, Classes: []string{"dim-mismatch"}, Variants: vecVariants,
+	gs = append(gs, group{Kind: "Vector", Name: "Set", Methods: []string{"Set", "SET"}, Classes: []string{"dim-mismatch", "degenerate-operand"}, Variants: vecVariants,
 		Build: func(e *env, variant, class string, concrete bool) []alt {
 			n := e.r.Range(2, 5)
 			mk := func(k int) alt {
@@ -234,10 +234,14 @@ func vecGroups() []group {
 			if class == "valid" {
 				return []alt{mk(n)}
 			}
+			if class == "degenerate-operand" {
+				// one operand of dimension 0 / 1 against a receiver of another size
+				return []alt{mk(0), mk(1)}
+			}
 			return []alt{mk(n + 1), mk(n - 1)}
 		}})
 	vv := func(name string, methods []string) group {
-		return group{Kind: "Vector", Name: name, Methods: methods, Classes: []string{"a-dim-mismatch", "b-dim-mismatch", "receiver-dim-mismatch"}, Variants: vecVariants,
+		return group{Kind: "Vector", Name: name, Methods: methods, Classes: []string{"a-dim-mismatch", "b-dim-mismatch", "receiver-dim-mismatch", "degenerate-operand"}, Variants: vecVariants,
 			Build: func(e *env, variant, class string, concrete bool) []alt {
 				n := e.r.Range(2, 5)
 				mk := func(nr, na, nb int) alt {
@@ -252,6 +256,8 @@ func vecGroups() []group {
 					return []alt{mk(n, n+1, n), mk(n, n-1, n)}
 				case "b-dim-mismatch":
 					return []alt{mk(n, n, n+1), mk(n, n, n-1)}
+				case "degenerate-operand":
+					return []alt{mk(n, 0, n), mk(n, n, 0), mk(0, n, n), mk(n, 0, 0), mk(0, 0, n), mk(n, 1, n), mk(1, n, n)}
 				default:
 					return []alt{mk(n+1, n, n), mk(n-1, n, n)}
 				}
@@ -259,7 +265,7 @@ func vecGroups() []group {
 	}
 	gs = append(gs, vv("VaddV", []string{"VaddV", "VADDV"}), vv("VsubV", []string{"VsubV", "VSUBV"}), vv("VmulV", []string{"VmulV", "VMULV"}), vv("VdivV", []string{"VdivV", "VDIVV"}))
 	vs := func(name string, methods []string) group {
-		return group{Kind: "Vector", Name: name, Methods: methods, Classes: []string{"a-dim-mismatch"}, Variants: vecVariants,
+		return group{Kind: "Vector", Name: name, Methods: methods, Classes: []string{"a-dim-mismatch", "degenerate-operand"}, Variants: vecVariants,
 			Build: func(e *env, variant, class string, concrete bool) []alt {
 				n := e.r.Range(2, 5)
 				mk := func(na int) alt {
@@ -269,11 +275,15 @@ func vecGroups() []group {
 				if class == "valid" {
 					return []alt{mk(n)}
 				}
+				if class == "degenerate-operand" {
+					v0, p0 := e.recvVec(variant, 0)
+					return []alt{mk(0), mk(1), {v0, p0, []any{e.vecS(e.other(concrete), n), e.scalar()}, fmt.Sprintf("receiver dim=0 a dim=%d", n)}}
+				}
 				return []alt{mk(n + 1), mk(n - 1)}
 			}}
 	}
 	gs = append(gs, vs("VaddS", []string{"VaddS", "VADDS"}), vs("VsubS", []string{"VsubS", "VSUBS"}), vs("VmulS", []string{"VmulS", "VMULS"}), vs("VdivS", []string{"VdivS", "VDIVS"}))
-	gs = append(gs, group{Kind: "Vector", Name: "MdotV", Methods: []string{"MdotV", "MDOTV"}, Classes: []string{"receiver-dim-mismatch", "inner-dim-mismatch"}, Variants: vecVariants,
+	gs = append(gs, group{Kind: "Vector", Name: "MdotV", Methods: []string{"MdotV", "MDOTV"}, Classes: []string{"receiver-dim-mismatch", "inner-dim-mismatch", "degenerate-operand"}, Variants: vecVariants,
 		Build: func(e *env, variant, class string, concrete bool) []alt {
 			r, c := e.r.Range(2, 4), e.r.Range(2, 4)
 			mk := func(nr, nb int) alt {
@@ -281,7 +291,15 @@ func vecGroups() []group {
 				st := e.other(concrete)
 				return alt{v, p, []any{e.matS(st, r, c), e.vecS(st, nb)}, fmt.Sprintf("receiver dim=%d matrix %dx%d vector dim=%d", nr, r, c, nb)}
 			}
+			// degenerate matrix (0 rows / 0 columns) with vectors that do not fit it
+			mkd := func(nr, mr, mc, nb int) alt {
+				v, p := e.recvVec(variant, nr)
+				st := e.other(concrete)
+				return alt{v, p, []any{e.matS(st, mr, mc), e.vecS(st, nb)}, fmt.Sprintf("receiver dim=%d matrix %dx%d vector dim=%d", nr, mr, mc, nb)}
+			}
 			switch class {
+			case "degenerate-operand":
+				return []alt{mkd(r, 0, c, c), mkd(r, r, 0, c), mkd(0, r, c, c), mk(r, 0), mkd(r, 0, 0, c), mkd(r, 0, c, 0), mkd(r+1, r, 0, 0), mkd(r, 1, 1, c)}
 			case "valid":
 				return []alt{mk(r, c)}
 			case "receiver-dim-mismatch":
@@ -290,7 +308,7 @@ func vecGroups() []group {
 				return []alt{mk(r, c+1), mk(r, c-1)}
 			}
 		}})
-	gs = append(gs, group{Kind: "Vector", Name: "VdotM", Methods: []string{"VdotM", "VDOTM"}, Classes: []string{"receiver-dim-mismatch", "inner-dim-mismatch"}, Variants: vecVariants,
+	gs = append(gs, group{Kind: "Vector", Name: "VdotM", Methods: []string{"VdotM", "VDOTM"}, Classes: []string{"receiver-dim-mismatch", "inner-dim-mismatch", "degenerate-operand"}, Variants: vecVariants,
 		Build: func(e *env, variant, class string, concrete bool) []alt {
 			r, c := e.r.Range(2, 4), e.r.Range(2, 4)
 			mk := func(nr, na int) alt {
@@ -298,7 +316,15 @@ func vecGroups() []group {
 				st := e.other(concrete)
 				return alt{v, p, []any{e.vecS(st, na), e.matS(st, r, c)}, fmt.Sprintf("receiver dim=%d vector dim=%d matrix %dx%d", nr, na, r, c)}
 			}
+			// degenerate matrix (0 rows / 0 columns) with vectors that do not fit it
+			mkd := func(nr, na, mr, mc int) alt {
+				v, p := e.recvVec(variant, nr)
+				st := e.other(concrete)
+				return alt{v, p, []any{e.vecS(st, na), e.matS(st, mr, mc)}, fmt.Sprintf("receiver dim=%d vector dim=%d matrix %dx%d", nr, na, mr, mc)}
+			}
 			switch class {
+			case "degenerate-operand":
+				return []alt{mkd(c, r, 0, c), mkd(c, r, r, 0), mkd(c+1, 0, 0, c), mkd(0, r, r, c), mk(c, 0), mkd(c, r, 0, 0), mkd(c, r+1, r, 0), mkd(c, r, 1, 1)}
 			case "valid":
 				return []alt{mk(c, r)}
 			case "receiver-dim-mismatch":
@@ -307,7 +333,7 @@ func vecGroups() []group {
 				return []alt{mk(c, r+1), mk(c, r-1)}
 			}
 		}})
-	gs = append(gs, group{Kind: "Vector", Name: "Equals", Methods: []string{"Equals", "EQUALS"}, Classes: []string{"dim-mismatch"}, Variants: vecVariants,
+	gs = append(gs, group{Kind: "Vector", Name: "Equals", Methods: []string{"Equals", "EQUALS"}, Classes: []string{"dim-mismatch", "degenerate-operand"}, Variants: vecVariants,
 		Build: func(e *env, variant, class string, concrete bool) []alt {
 			n := e.r.Range(2, 5)
 			mk := func(k int) alt {
@@ -316,6 +342,9 @@ func vecGroups() []group {
 			}
 			if class == "valid" {
 				return []alt{mk(n)}
+			}
+			if class == "degenerate-operand" {
+				return []alt{mk(0), mk(1)}
 			}
 			return []alt{mk(n + 1), mk(n - 1)}
 		}})
@@ -550,7 +579,7 @@ func matGroups() []group {
 			}}
 	}
 	gs = append(gs, pm("PermuteRows", "rows"), pm("PermuteColumns", "cols"), pm("SymmetricPermutation", "sym"))
-	gs = append(gs, group{Kind: "Matrix", Name: "Set", Methods: []string{"Set"}, Classes: []string{"dims-mismatch", "transposed-shape"}, Variants: matVariants,
+	gs = append(gs, group{Kind: "Matrix", Name: "Set", Methods: []string{"Set"}, Classes: []string{"dims-mismatch", "transposed-shape", "degenerate-operand"}, Variants: matVariants,
 		Build: func(e *env, variant, class string, concrete bool) []alt {
 			r := e.r.Range(2, 3)
 			c := r + e.r.Range(1, 2)
@@ -563,12 +592,14 @@ func matGroups() []group {
 				return []alt{mk(r, c)}
 			case "dims-mismatch":
 				return []alt{mk(r+1, c), mk(r, c-1), mk(r-1, c+1)}
+			case "degenerate-operand":
+				return []alt{mk(0, c), mk(r, 0), mk(0, 0), mk(1, 1)}
 			default:
 				return []alt{mk(c, r)}
 			}
 		}})
 	mm := func(name string, methods []string) group {
-		return group{Kind: "Matrix", Name: name, Methods: methods, Classes: []string{"a-dims-mismatch", "b-dims-mismatch", "receiver-dims-mismatch", "transposed-shape-operand"}, Variants: matVariants,
+		return group{Kind: "Matrix", Name: name, Methods: methods, Classes: []string{"a-dims-mismatch", "b-dims-mismatch", "receiver-dims-mismatch", "transposed-shape-operand", "degenerate-operand"}, Variants: matVariants,
 			Build: func(e *env, variant, class string, concrete bool) []alt {
 				r := e.r.Range(2, 3)
 				c := r + e.r.Range(1, 2)
@@ -586,6 +617,9 @@ func matGroups() []group {
 					return []alt{mk(r, c, r, c, r+1, c), mk(r, c, r, c, r, c-1)}
 				case "receiver-dims-mismatch":
 					return []alt{mk(r+1, c, r, c, r, c), mk(r, c-1, r, c, r, c)}
+				case "degenerate-operand":
+					return []alt{mk(r, c, 0, c, r, c), mk(r, c, r, 0, r, c), mk(r, c, r, c, 0, c), mk(r, c, r, c, r, 0), mk(r, c, 0, 0, 0, 0),
+						mk(0, c, r, c, r, c), mk(r, 0, r, c, r, c), mk(0, 0, r, c, r, c), mk(r, c, 1, 1, r, c), mk(r, c, r, c, 1, 1)}
 				default:
 					return []alt{mk(r, c, c, r, r, c), mk(r, c, r, c, c, r)}
 				}
@@ -593,7 +627,7 @@ func matGroups() []group {
 	}
 	gs = append(gs, mm("MaddM", []string{"MaddM", "MADDM"}), mm("MsubM", []string{"MsubM", "MSUBM"}), mm("MmulM", []string{"MmulM", "MMULM"}), mm("MdivM", []string{"MdivM", "MDIVM"}))
 	ms := func(name string, methods []string) group {
-		return group{Kind: "Matrix", Name: name, Methods: methods, Classes: []string{"a-dims-mismatch"}, Variants: matVariants,
+		return group{Kind: "Matrix", Name: name, Methods: methods, Classes: []string{"a-dims-mismatch", "degenerate-operand"}, Variants: matVariants,
 			Build: func(e *env, variant, class string, concrete bool) []alt {
 				r := e.r.Range(2, 3)
 				c := r + e.r.Range(1, 2)
@@ -604,11 +638,16 @@ func matGroups() []group {
 				if class == "valid" {
 					return []alt{mk(r, c)}
 				}
+				if class == "degenerate-operand" {
+					m0, p0 := e.recvMat(variant, 0, c)
+					return []alt{mk(0, c), mk(r, 0), mk(0, 0), mk(1, 1),
+						{m0, p0, []any{e.matS(e.other(concrete), r, c), e.scalar()}, fmt.Sprintf("receiver 0x%d a %dx%d", c, r, c)}}
+				}
 				return []alt{mk(r+1, c), mk(r, c-1), mk(c, r)}
 			}}
 	}
 	gs = append(gs, ms("MaddS", []string{"MaddS", "MADDS"}), ms("MsubS", []string{"MsubS", "MSUBS"}), ms("MmulS", []string{"MmulS", "MMULS"}), ms("MdivS", []string{"MdivS", "MDIVS"}))
-	gs = append(gs, group{Kind: "Matrix", Name: "MdotM", Methods: []string{"MdotM", "MDOTM"}, Classes: []string{"inner-dim-mismatch", "receiver-rows-mismatch", "receiver-cols-mismatch"}, Variants: matVariants,
+	gs = append(gs, group{Kind: "Matrix", Name: "MdotM", Methods: []string{"MdotM", "MDOTM"}, Classes: []string{"inner-dim-mismatch", "receiver-rows-mismatch", "receiver-cols-mismatch", "degenerate-operand"}, Variants: matVariants,
 		Build: func(e *env, variant, class string, concrete bool) []alt {
 			r, k, c := e.r.Range(2, 3), e.r.Range(2, 4), e.r.Range(2, 3)
 			mk := func(rr, rc, ar, ac, br, bc int) alt {
@@ -621,13 +660,17 @@ func matGroups() []group {
 				return []alt{mk(r, c, r, k, k, c)}
 			case "inner-dim-mismatch":
 				return []alt{mk(r, c, r, k, k+1, c), mk(r, c, r, k+1, k, c)}
+			case "degenerate-operand":
+				// empty factor (0 rows / 0 columns) or empty receiver with shapes that do not fit
+				return []alt{mk(r, c, r, 0, k, c), mk(r, c, r, k, 0, c), mk(r, c, 0, k, k, c), mk(r, c, r, k, k, 0), mk(r, c, 0, 0, k, c),
+					mk(0, c, r, k, k, c), mk(r, 0, r, k, k, c), mk(0, 0, r, k, k, c), mk(r+1, c, r, 0, 0, c), mk(r, c, 1, 1, k, c)}
 			case "receiver-rows-mismatch":
 				return []alt{mk(r+1, c, r, k, k, c), mk(r-1, c, r, k, k, c)}
 			default:
 				return []alt{mk(r, c+1, r, k, k, c), mk(r, c-1, r, k, k, c)}
 			}
 		}})
-	gs = append(gs, group{Kind: "Matrix", Name: "Outer", Methods: []string{"Outer", "OUTER"}, Classes: []string{"a-dim-mismatch", "b-dim-mismatch"}, Variants: matVariants,
+	gs = append(gs, group{Kind: "Matrix", Name: "Outer", Methods: []string{"Outer", "OUTER"}, Classes: []string{"a-dim-mismatch", "b-dim-mismatch", "degenerate-operand"}, Variants: matVariants,
 		Build: func(e *env, variant, class string, concrete bool) []alt {
 			r, c := e.r.Range(2, 4), e.r.Range(2, 4)
 			mk := func(na, nb int) alt {
@@ -640,11 +683,16 @@ func matGroups() []group {
 				return []alt{mk(r, c)}
 			case "a-dim-mismatch":
 				return []alt{mk(r+1, c), mk(r-1, c)}
+			case "degenerate-operand":
+				m0, p0 := e.recvMat(variant, 0, c)
+				st := e.other(concrete)
+				return []alt{mk(0, c), mk(r, 0), mk(0, 0), mk(1, c), mk(r, 1),
+					{m0, p0, []any{e.vecS(st, r), e.vecS(st, c)}, fmt.Sprintf("receiver 0x%d a dim=%d b dim=%d", c, r, c)}}
 			default:
 				return []alt{mk(r, c+1), mk(r, c-1)}
 			}
 		}})
-	gs = append(gs, group{Kind: "Matrix", Name: "Equals", Methods: []string{"Equals", "EQUALS"}, Classes: []string{"dims-mismatch"}, Variants: matVariants,
+	gs = append(gs, group{Kind: "Matrix", Name: "Equals", Methods: []string{"Equals", "EQUALS"}, Classes: []string{"dims-mismatch", "degenerate-operand"}, Variants: matVariants,
 		Build: func(e *env, variant, class string, concrete bool) []alt {
 			r := e.r.Range(2, 3)
 			c := r + e.r.Range(1, 2)
@@ -654,6 +702,9 @@ func matGroups() []group {
 			}
 			if class == "valid" {
 				return []alt{mk(r, c)}
+			}
+			if class == "degenerate-operand" {
+				return []alt{mk(0, c), mk(r, 0), mk(0, 0), mk(1, 1)}
 			}
 			return []alt{mk(r+1, c), mk(r, c-1), mk(c, r)}
 		}})
@@ -726,7 +777,7 @@ func matGroups() []group {
 func scalarGroups() []group {
 	var gs []group
 	plain := []string{"plain"}
-	gs = append(gs, group{Kind: "Scalar", Name: "VdotV", Methods: []string{"VdotV"}, Classes: []string{"dim-mismatch"}, Variants: plain,
+	gs = append(gs, group{Kind: "Scalar", Name: "VdotV", Methods: []string{"VdotV"}, Classes: []string{"dim-mismatch", "degenerate-operand"}, Variants: plain,
 		Build: func(e *env, variant, class string, concrete bool) []alt {
 			n := e.r.Range(2, 5)
 			mk := func(na, nb int) alt {
@@ -734,6 +785,9 @@ func scalarGroups() []group {
 			}
 			if class == "valid" {
 				return []alt{mk(n, n)}
+			}
+			if class == "degenerate-operand" {
+				return []alt{mk(0, n), mk(n, 0), mk(1, n), mk(n, 1)}
 			}
 			return []alt{mk(n, n+1), mk(n+1, n)}
 		}})
@@ -1169,7 +1223,7 @@ type cell struct {
 }
 
 func misuseCells() []cell {
-	var cells []cell
+	var cells, late []cell
 	for _, g := range append(append(vecGroups(), matGroups()...), scalarGroups()...) {
 		storages := []string{gen.Dense, gen.Sparse}
 		if g.Kind == "Scalar" {
@@ -1177,11 +1231,15 @@ func misuseCells() []cell {
 		}
 		for _, st := range storages {
 			for _, cl := range g.Classes {
+				if cl == "degenerate-operand" {
+					late = append(late, cell{g, st, cl}) // appended below: the indices of the older cells stay what the findings name
+					continue
+				}
 				cells = append(cells, cell{g, st, cl})
 			}
 		}
 	}
-	return cells
+	return append(cells, late...)
 }
 
 func runMisuse(c *fw.Ctx) {
